@@ -143,6 +143,10 @@ def signature(spec, case):
     mod = _engine(spec)
     if hasattr(mod, 'signature'):
         return mod.signature(case)
+    return generic_signature(case)
+
+
+def generic_signature(case):
     v = case.get('violation') or {}
     op = v.get('op') or {}
     site = v.get('site') or {}
@@ -382,7 +386,9 @@ def cmd_triage(prop, verif_seed, runs, minimise_n=1):
                 print('minimise failed', repr(e))
             print('--- index', case['index'], 'program:')
             print(case['program'])
-            print('--- ops:', json.dumps(case['ops'], ensure_ascii=False))
+            for key in ('ops', 'rounds', 'others', 'threads'):
+                if key in case:
+                    print(f'--- {key}:', json.dumps(case[key], ensure_ascii=False))
             print('--- violation:', case['violation']['kind'], '|', case['violation']['detail'])
             if case.get('schedule'):
                 print('--- schedule:', json.dumps(case['schedule'], ensure_ascii=False))
